@@ -740,6 +740,13 @@ func (n *normalizer) rewriteList(list []ast.Stmt, caller string) []edit {
 // nested collects the edits inside the sub-statements and function literals of s.
 func (n *normalizer) nested(s ast.Node, caller string) []edit {
 	var eds []edit
+	// a clause of a switch / select is a statement list of its own
+	switch y := s.(type) {
+	case *ast.CaseClause:
+		return n.rewriteList(y.Body, caller)
+	case *ast.CommClause:
+		return n.rewriteList(y.Body, caller)
+	}
 	ast.Inspect(s, func(x ast.Node) bool {
 		if x == s || x == nil {
 			return true
@@ -917,6 +924,9 @@ func (n *normalizer) rewriteStmt(s ast.Stmt, caller string) []edit {
 	case *ast.IfStmt:
 		if st.Init == nil {
 			expr = st.Cond
+		} else if in, ok := st.Init.(*ast.AssignStmt); ok && len(in.Rhs) == 1 {
+			// if err := f(a, h(x)); err != nil {..}: the init statement is what the if evaluates first
+			expr = in.Rhs[0]
 		}
 	}
 	if expr != nil {
